@@ -62,6 +62,9 @@ def check(ck: Checker) -> None:
     from . import round7 as _r7
 
     _r7.meta_from_info_own_keys(ck, "C14.select")
+    from . import round8 as _r8
+
+    _r8.fs_hash_by_requested_name(ck, "C14.select")
 
 
 
